@@ -15,6 +15,8 @@ Property clause → theorem
       `C20.derived_sourced_full`  every index store InitGenesis rebuilds is rebuilt from records ExportGenesis reads
       `C20.import_total_full`     no InitGenesis loop can silently stop the import
       `C20.import_accepts_full`   no InitGenesis setter can refuse a record
+      `C20.validate_keys_match_store_keys`  every duplicate check of a GenesisState.Validate keys the records exactly like the store
+                                  (pinned: `validate_keys_pinned`, 6 checks, all in x/liquidity) — no exception on the current tree
       `C20.counters_exact_full`   every id counter / length key is restored from a stored genesis value
       `C20.fields_used_full`      every genesis field ExportGenesis fills is looked at by InitGenesis
       These are FALSE of the unchanged tree; each is stated at full strength over the table minus the explicit lists
@@ -340,6 +342,17 @@ theorem import_total_full : ∀ g ∈ fragileGaps modules, listed "abort" g = tr
 
 /-- no InitGenesis setter can refuse a record that the run-time paths accept — minus named gaps -/
 theorem import_accepts_full : ∀ g ∈ rejectGaps modules, listed "reject" g = true := by decide
+
+/-- every duplicate check of a `GenesisState.Validate` uses exactly the components of the key under which InitGenesis stores the
+record: no reachable state (records unique under their store keys) can be refused as a duplicate by the module that exported it -/
+theorem validate_keys_match_store_keys : validateKeyGaps modules = [] := by decide
+
+/-- the duplicate checks found (all in x/liquidity/types/genesis.go; the other modules' Validate functions check no uniqueness) -/
+theorem validate_keys_pinned : (modules.map fun m => m.validateKeys.length) = [0, 0, 0, 0, 0, 0, 0, 0, 0, 6, 0, 0, 0, 0, 0] ∧
+    (∃ m ∈ modules, m.name = "liquidity" ∧
+      ("ActiveFarmers", ["AppId"], ["Farmer", "AppId", "PoolId"], ["AppId", "PoolId", "Farmer"]) ∈ m.validateKeys ∧
+      ("DepositRequests", ["AppId"], ["PoolId", "Id"], ["AppId", "PoolId", "Id"]) ∈ m.validateKeys ∧
+      ("Orders", ["AppId"], ["PairId", "Id"], ["AppId", "PairId", "Id"]) ∈ m.validateKeys) := by decide
 
 /-- ∀ counter c, restoreRule c = exact — over the table minus the named gaps -/
 theorem counters_exact_full : ∀ g ∈ lossyCounters modules, listed "counter" g = true := by decide
